@@ -4,8 +4,8 @@
 package core
 
 import (
-	"context"
 	"bytes"
+	"context"
 	"crypto/sha1"
 	"encoding/hex"
 	"encoding/json"
